@@ -222,3 +222,140 @@ func bufRole(p *Prog, ref string) string {
 	}
 	return ref
 }
+
+// namedRole: the unexported named type rel.name, or — when no type of that name exists — the type that
+// plays its role (bound through an exported type that refers to it, or by a unique structural trait).
+func namedRole(p *Prog, rel, name string) *types.Named {
+	if n := p.Named(rel, name); n != nil {
+		return n
+	}
+	elemOf := func(owner string, pick func(t types.Type) types.Type) *types.Named {
+		o := p.Named(rel, owner)
+		if o == nil {
+			return nil
+		}
+		var found *types.Named
+		cnt := 0
+		for _, f := range structFields(o) {
+			if e := pick(f.Type()); e != nil {
+				if n := derefNamed(e); n != nil && n.Obj().Pkg() == o.Obj().Pkg() && !n.Obj().Exported() {
+					if _, isStruct := n.Underlying().(*types.Struct); isStruct || true {
+						found = n
+						cnt++
+					}
+				}
+			}
+		}
+		if cnt == 1 {
+			return found
+		}
+		return nil
+	}
+	sliceElem := func(t types.Type) types.Type {
+		if s, ok := t.Underlying().(*types.Slice); ok {
+			return s.Elem()
+		}
+		return nil
+	}
+	mapElem := func(t types.Type) types.Type {
+		if m, ok := t.Underlying().(*types.Map); ok {
+			return m.Elem()
+		}
+		return nil
+	}
+	switch rel + "." + name {
+	case "ratelimit.tokenBucket":
+		return elemOf("TokenBucketSet", mapElem)
+	case "roundrobin.rbServer":
+		return elemOf("Rebalancer", sliceElem)
+	case "roundrobin.server":
+		return elemOf("RoundRobin", sliceElem)
+	case "cbreaker.ratioController":
+		return elemOf("CircuitBreaker", func(t types.Type) types.Type {
+			if pt, ok := t.(*types.Pointer); ok {
+				if _, isStruct := pt.Elem().Underlying().(*types.Struct); isStruct {
+					return pt
+				}
+			}
+			return nil
+		})
+	case "cbreaker.cbState":
+		return elemOf("CircuitBreaker", func(t types.Type) types.Type {
+			if n, ok := t.(*types.Named); ok {
+				if b, ok := n.Underlying().(*types.Basic); ok && b.Info()&types.IsInteger != 0 {
+					return t
+				}
+			}
+			return nil
+		})
+	case "internal/holsterv4/collections.pqImpl":
+		return elemOf("PriorityQueue", func(t types.Type) types.Type {
+			if pt, ok := t.(*types.Pointer); ok {
+				return pt
+			}
+			return nil
+		})
+	case "buffer.bufferWriter":
+		// the unexported struct of package buffer whose pointer implements http.ResponseWriter
+		sp := p.Pkg("buffer")
+		hp := p.DepPkg(pkgHTTP)
+		if sp == nil || hp == nil || hp.Type("ResponseWriter") == nil {
+			return nil
+		}
+		it, _ := hp.Type("ResponseWriter").Type().Underlying().(*types.Interface)
+		var found *types.Named
+		cnt := 0
+		for _, m := range sp.Members {
+			t, ok := m.(*ssa.Type)
+			if !ok || t.Object().Exported() {
+				continue
+			}
+			n, ok := t.Type().(*types.Named)
+			if !ok {
+				continue
+			}
+			if _, isStruct := n.Underlying().(*types.Struct); isStruct && it != nil && types.Implements(types.NewPointer(n), it) {
+				found = n
+				cnt++
+			}
+		}
+		if cnt == 1 {
+			return found
+		}
+	case "buffer.context":
+		// the unexported struct of package buffer holding the request and the attempt data of the retry expression
+		sp := p.Pkg("buffer")
+		if sp == nil {
+			return nil
+		}
+		var found *types.Named
+		cnt := 0
+		for _, m := range sp.Members {
+			t, ok := m.(*ssa.Type)
+			if !ok || t.Object().Exported() {
+				continue
+			}
+			n, ok := t.Type().(*types.Named)
+			if !ok {
+				continue
+			}
+			hasReq, nInt := false, 0
+			for _, f := range structFields(n) {
+				if typeIs(f.Type(), pkgHTTP, "Request") {
+					hasReq = true
+				}
+				if isPlainBasic(types.Int)(f.Type()) {
+					nInt++
+				}
+			}
+			if hasReq && nInt >= 2 {
+				found = n
+				cnt++
+			}
+		}
+		if cnt == 1 {
+			return found
+		}
+	}
+	return nil
+}
